@@ -22,7 +22,6 @@ Warp's tile built-ins beyond the stated model.
 """
 
 import json
-import os
 
 import numpy as np
 import z3
@@ -418,11 +417,6 @@ def _patch_scene(path, w, r, n, dvals):
     json.dump(spec, f, indent=1, default=str)
 
 
-class _KT:
-  def __init__(self, kernel, args, tid):
-    self.kernel, self.args, self.tid = kernel, args, tid
-
-
 def unit_select(n, B):
   def run(ctx):
     from mujoco_warp._src import ray
@@ -438,7 +432,6 @@ def unit_select(n, B):
       "launch shapes as asserted by rays(): pnt / vec (1 or nworld, nray), bodyexclude (nray), outputs (nworld, nray); Model arrays hold ngeom entries; geom_bodyid in [0, nbody), geom_matid in [-1, nmat)",
     )
     w, r = z3.Int("worldid"), z3.Int("rayid")
-    cells = {}
     calls = []
 
     def summary(kind):
@@ -558,7 +551,6 @@ def unit_select(n, B):
         ("geomid", got_i == core.to_z3(best, "int"), "geomid is not the nearest eligible geom (ties: lower id; -1 if none)"),
         ("normal", z3.And(*[got_n[i] == core.to_z3(want_n[i], "real") for i in range(3)]), "normal is not the normal reported for the selected geom (zero if none)"),
       ]
-      kt_ = _KT(k, args, (w, r, t))
       for nm, goal, desc in goals:
         neg = z3.Not(goal)
 
